@@ -120,17 +120,23 @@ func (t *mbTarget) state() (fmt.State, rune)  { return nil, 0 }
 // observer receives the results of accessor ops.
 type observer func(i int, op *Op, result interface{})
 
-func runWriterOps(t target, ops []*Op, inst int) { runWriterOpsObs(t, ops, inst, nil) }
+func runWriterOps(t target, ops []*Op, inst int) { runCompiled(t, compileOps(ops, inst), inst, nil) }
 
 var modes = []redact.VerifOutputMode{redact.VerifUnsafeEscaped, redact.VerifSafeEscaped, redact.VerifSafeRaw}
 
-func runWriterOpsObs(t target, ops []*Op, inst int, obs observer) {
-	for i, op := range ops {
-		runWriterOp(t, i, op, inst, obs)
+func runCompiled(t target, ops []*compiled, inst int, obs observer) {
+	for i, c := range ops {
+		runCompiledOp(t, i, c, inst, obs)
 	}
 }
 
+// runWriterOp runs one op, building its operands on the spot.
 func runWriterOp(t target, i int, op *Op, inst int, obs observer) {
+	runCompiledOp(t, i, compileOps([]*Op{op}, inst)[0], inst, obs)
+}
+
+func runCompiledOp(t target, i int, c *compiled, inst int, obs observer) {
+	op := c.op
 	note := func(r interface{}) {
 		if obs != nil {
 			obs(i, op, r)
@@ -160,9 +166,9 @@ func runWriterOp(t target, i int, op *Op, inst int, obs observer) {
 	case "UnsafeBytes":
 		t.UnsafeBytes([]byte(op.str(inst)))
 	case "Print":
-		t.Print(BuildAll(op.Args, inst)...)
+		t.Print(c.args...)
 	case "Printf":
-		t.Printf(op.str(inst), BuildAll(op.Args, inst)...)
+		t.Printf(op.str(inst), c.args...)
 	case "Write":
 		t.ioWrite([]byte(op.str(inst)))
 	case "WriteString":
@@ -173,8 +179,8 @@ func runWriterOp(t target, i int, op *Op, inst int, obs observer) {
 		t.ioWriteRune(rune(op.int(inst)))
 	case "Panic":
 		var payload interface{}
-		if len(op.Args) > 0 {
-			payload = Build(op.Args[0], inst)
+		if len(c.args) > 0 {
+			payload = c.args[0]
 		}
 		panic(payload)
 	case "State":
@@ -184,9 +190,9 @@ func runWriterOp(t target, i int, op *Op, inst int, obs observer) {
 	case "Fwd":
 		if st, verb := t.state(); st != nil {
 			_, f := redact.MakeFormat(st, verb)
-			t.Printf(f, BuildAll(op.Args, inst)...)
+			t.Printf(f, c.args...)
 		} else {
-			t.Print(BuildAll(op.Args, inst)...)
+			t.Print(c.args...)
 		}
 	// ---- buffer-level operations (StringBuilder and ManualBuffer only)
 	case "MBSetMode":
